@@ -2,152 +2,237 @@
 import re
 
 from .. import lib, mir
+from .. import lib_sw as S
 from ..mir import render
 
 EXPLANATION = ("Who-may-write analysis of the four ConnectionCounters fields, decision tables of the inc/dec helpers "
                "(variant -> field, +1/-1), and path pairing in Pool::{add_outgoing,add_incoming,spawn_connection,poll}: "
                "each pending/established map insert is paired with exactly one inc on every path, each successful remove "
                "with exactly one dec before any return; outer established entry removed iff inner map became empty; "
-               "num_established/other_established computed from the pre-insert view.")
+               "num_established/other_established computed from the pre-insert view; who-may-mutate: the pending map is structurally "
+               "changed only by add_outgoing/add_incoming (insert) and poll (remove), the outer established map only by "
+               "spawn_connection (entry) and poll (remove), the per-peer inner maps only by spawn_connection (insert) and poll "
+               "(remove) — every other function may read them or reach into existing entries.  Private fields and the private "
+               "counter helpers are identified by role (types, public getters, what they write), not by name.")
 ASSUMPTIONS = ["equality with an external event history follows from the pairing only under C01's exactly-once clauses",
                "u32 counters do not overflow"]
 SW = "libp2p_swarm"
 CC = r"connection::pool::ConnectionCounters"
-FIELDS = ["pending_incoming", "pending_outgoing", "established_incoming", "established_outgoing"]
-HELPERS = {
+POOL = r"connection::pool::Pool$"
+ROLES = ["pending_incoming", "pending_outgoing", "established_incoming", "established_outgoing"]
+
+
+def counter_fields(ctx):
+    """role -> current field name, read off the public getters num_<role>()"""
+    out = {}
+    for r_ in ROLES:
+        b = ctx.body(SW, CC + "::num_" + r_ + "$")
+        rs = S.ret_exprs(b)
+        if len(rs) != 1 or rs[0][0] != "field" or rs[0][1][0] != "arg":
+            raise mir.RuleError("ConnectionCounters::num_%s does not return a field of self" % r_)
+        out[r_] = rs[0][2]
+    return out
+
+
+def helper_table(body, F):
+    """{label or None: (role, op)} extracted from the MIR of one helper; every write must be +/-1."""
+    table = {}
+    for role_, f in F.items():
+        for s in body.field_write_sites(f, CC):
+            e = body.site_expr(s)
+            # (Add|Sub)WithOverflow(self.f, 1).0
+            r = render(e)
+            m = re.match(r"^(Add|Sub)WithOverflow\(self\.%s, 1\)\.0$" % re.escape(f), r)
+            op = m.group(1) if m else "?" + r
+            gs = body.guards_on_all_paths(s.bb)
+            labs = [l for (_, ls, _, c) in gs if c[0] == "discr" and c[1][0] == "arg" and c[1][1] == 2 for l in ls]
+            if not labs:
+                labs = [None]
+            for l in labs:
+                table[l] = (role_, op)
+    return table
+
+
+SHAPES = {
     "inc_pending": {"Dialer": ("pending_outgoing", "Add"), "Listener": ("pending_incoming", "Add")},
     "inc_pending_incoming": {None: ("pending_incoming", "Add")},
+    "inc_pending_outgoing": {None: ("pending_outgoing", "Add")},
     "dec_pending": {"Dialer": ("pending_outgoing", "Sub"), "Listener": ("pending_incoming", "Sub")},
     "inc_established": {"Dialer": ("established_outgoing", "Add"), "Listener": ("established_incoming", "Add")},
     "dec_established": {"Dialer": ("established_outgoing", "Sub"), "Listener": ("established_incoming", "Sub")},
 }
 
 
-def helper_table(body):
-    """{label or None: (field, op)} extracted from the MIR of one helper; every write must be +/-1."""
-    table = {}
-    for f in FIELDS:
-        for s in body.field_write_sites(f, CC):
-            e = body.site_expr(s)
-            # (Add|Sub)WithOverflow(self.f, 1).0
-            r = render(e)
-            m = re.match(r"^(Add|Sub)WithOverflow\(self\.%s, 1\)\.0$" % f, r)
-            op = m.group(1) if m else "?" + r
-            gs = body.guards_on_all_paths(s.bb)
-            labs = [l for (_, ls, _, c) in gs if render(c).startswith("discr(endpoint") for l in ls]
-            if not labs:
-                labs = [None]
-            for l in labs:
-                table[l] = (f, op)
-    return table
-
-
 def check(ctx):
     prog = ctx.prog
-    # ---- K4 who writes the counters
+    F = counter_fields(ctx)
+    pend = S.role(prog, "pool.pending")
+    est = S.role(prog, "pool.established")
+    f_pend_ep = S.role(prog, "pending.endpoint")
+    f_est_ep = S.role(prog, "established.endpoint")
+    # ---- K4 who writes the counters; K7 what every writer does
     writers = {}
     for b in prog.bodies(SW):
-        for f in FIELDS:
-            for s in b.field_write_sites(f, CC):
-                writers.setdefault(b.npath, set()).add(f)
-    allowed = {"libp2p_swarm::connection::pool::ConnectionCounters::" + h for h in HELPERS}
-    extra = set(writers) - allowed
-    ctx.ob("who-writes", "ConnectionCounters fields", not extra,
-           msg="bodies writing counter fields: %s" % sorted(writers))
+        for f in F.values():
+            if b.field_write_sites(f, CC):
+                writers[b.npath] = b
+    kinds = {}
+    for path, b in sorted(writers.items()):
+        ctx.use(b)
+        got = helper_table(b, F)
+        kind = [k for k, v in SHAPES.items() if v == got]
+        ctx.ob("helper-table", kind[0] if kind else "writer " + b.short.split("::")[-1], bool(kind), "%s:%d" % (b.file, b.line),
+               "variant->(counter,op) of %s: %s (must be one of the inc/dec shapes: Dialer->*_outgoing, Listener->*_incoming, +1 / -1)" % (b.short, got))
+        inside = re.search(CC + r"::\w+$", path) is not None and b.kind not in ("closure", "coroutine")
+        ctx.ob("who-writes", "ConnectionCounters fields written by " + (kind[0] if kind else b.short.split("::")[-1]), inside, "%s:%d" % (b.file, b.line),
+               "counter fields are written in %s" % path)
+        ctx.ob("helper-vis", kind[0] if kind else b.short.split("::")[-1], b.vis not in ("pub", "crate"), msg="visibility %s" % b.vis)
+        if kind:
+            kinds.setdefault(kind[0], []).append(b)
+    for need in ("dec_pending", "inc_established", "dec_established"):
+        ctx.ob("helper-table", "floor:" + need, len(kinds.get(need, [])) == 1, nontrivial=False, msg="%d helper(s) of shape %s" % (len(kinds.get(need, [])), need))
+    ctx.ob("helper-table", "floor:inc_pending", bool(kinds.get("inc_pending")) or (bool(kinds.get("inc_pending_incoming")) and bool(kinds.get("inc_pending_outgoing"))),
+           nontrivial=False, msg="pending increments: %s" % sorted(k for k in kinds if k.startswith("inc_pending")))
     news = [b for b in prog.bodies(SW) if b.agg_sites(CC + "$")]
     ctx.ob("who-constructs", "ConnectionCounters", {b.npath for b in news} <=
            {"libp2p_swarm::connection::pool::ConnectionCounters::new",
             "libp2p_swarm::<connection::pool::ConnectionCounters as std::clone::Clone>::clone"},
            msg="bodies constructing ConnectionCounters: %s" % [b.npath for b in news])
-    # ---- K7 helper tables
-    for h, want in HELPERS.items():
-        b = ctx.body(SW, CC + "::" + h + "$")
-        got = helper_table(b)
-        ctx.ob("helper-table", h, got == want, "%s:%d" % (b.file, b.line), "variant->(field,op): %s (expected %s)" % (got, want))
-        ctx.ob("helper-vis", h, b.vis not in ("pub", "crate"), msg="visibility %s" % b.vis)
+
+    def pat(*ks):
+        ps = [re.escape(b.npath) + "$" for k in ks for b in kinds.get(k, [])]
+        return "|".join(ps) if ps else r"^\b$"
     # ---- K4 who calls the helpers
     callers = {}
     for b in prog.bodies(SW):
-        for s in b.call_sites(CC + r"::(inc|dec)_"):
+        for s in b.call_sites(pat(*SHAPES)):
             callers.setdefault(b.npath, []).append(s)
     want_callers = {"libp2p_swarm::connection::pool::Pool::add_outgoing", "libp2p_swarm::connection::pool::Pool::add_incoming",
                     "libp2p_swarm::connection::pool::Pool::spawn_connection", "libp2p_swarm::connection::pool::Pool::poll"}
     ctx.ob("who-calls", "inc/dec helpers", set(callers) == want_callers, msg="callers: %s" % sorted(callers))
     ctx.floor("who-calls", "helper call sites", [s for v in callers.values() for s in v], 6)
+    # ---- K4 who may structurally change the books
+    S.check_mutators(ctx, "who-mutates", "Pool.pending", prog, pend, POOL,
+                     {"::Pool::add_outgoing": {"insert"}, "::Pool::add_incoming": {"insert"}, "::Pool::poll": {"remove"}}, floor=4)
+    S.check_mutators(ctx, "who-mutates", "Pool.established", prog, est, POOL,
+                     {"::Pool::spawn_connection": {"entry"}, "::Pool::poll": {"remove"}}, floor=2)
+    inner = []
+    for b in prog.bodies(SW):
+        for s in b.call_sites(r"HashMap::(insert|remove|remove_entry|clear|retain|drain|entry|extend|extract_if)$"):
+            e = b.site_expr(s)
+            recv = e[2][0] if e[2] else None
+            if recv is None or recv[0] not in ("call", "field", "downcast"):
+                continue
+            if recv[0] == "field" and recv[2] == est:
+                continue        # the outer map itself: covered above
+            if not any(x[0] == "field" and x[2] == est and re.search(POOL, mir.strip_generics(x[3] or "")) for x in mir.walk(recv)):
+                continue
+            inner.append((b, s, mir.strip_generics(b.call_name(s.term)).split("::")[-1]))
+    for b, s, meth in inner:
+        ok = (b.npath.endswith("::Pool::spawn_connection") and meth == "insert") or (b.npath.endswith("::Pool::poll") and meth == "remove")
+        ctx.ob("who-mutates", "per-peer connection map: %s in %s" % (meth, b.short), ok, s.loc(),
+               "the inner map of an established peer is structurally changed by %s" % b.short)
+    ctx.ob("who-mutates", "floor:per-peer connection map mutation sites", len(inner) >= 2, nontrivial=False, msg="%d site(s)" % len(inner))
 
     # ---- pairing: add_outgoing / add_incoming
-    for fn, inc in (("add_outgoing", "inc_pending$"), ("add_incoming", "inc_pending_incoming$")):
-        b = ctx.body(SW, r"pool::Pool::%s$" % fn)
-        ins = [s for s in b.call_sites(r"HashMap::insert$") if re.search(r"self\.pending\b", render(b.site_expr(s)))]
-        incs = b.call_sites(CC + "::" + inc)
+    for fn, incp in (("add_outgoing", pat("inc_pending", "inc_pending_outgoing")), ("add_incoming", pat("inc_pending", "inc_pending_incoming"))):
+        b = S.nbody(ctx, r"pool::Pool::%s$" % fn)
+        ins = [s for s in b.call_sites(r"HashMap::insert$") if render(b.site_expr(s)[2][0]) == "self." + pend]
+        incs = b.call_sites(incp)
         ctx.floor("pending-insert", fn + " pending.insert", ins, 1, exact=True)
         ctx.floor("pending-insert", fn + " inc", incs, 1, exact=True)
         rets = b.return_blocks()
-        lib.exactly_once(ctx, "pending-insert-paired", fn + "/inc", b, [0], rets, lib.bbs(incs), "one " + inc, "%s:%d" % (b.file, b.line))
+        lib.exactly_once(ctx, "pending-insert-paired", fn + "/inc", b, [0], rets, lib.bbs(incs), "one pending increment", "%s:%d" % (b.file, b.line))
         lib.exactly_once(ctx, "pending-insert-paired", fn + "/insert", b, [0], rets, lib.bbs(ins), "one pending.insert", "%s:%d" % (b.file, b.line))
-        if fn == "add_outgoing" and ins and incs:
-            # endpoint passed to inc is the endpoint stored
-            ie = b.site_expr(incs[0])[2][1]
-            se = b.site_expr(ins[0])
-            stored = None
-            for x in mir.walk(se):
+        stored = None
+        for s in ins:
+            for x in mir.walk(b.site_expr(s)):
                 if x[0] == "agg" and x[2].endswith("PendingConnection"):
-                    stored = dict(x[4]).get("endpoint")
-            ctx.ob("endpoint-same", fn, stored is not None and render(stored) == render(ie), ins[0].loc(),
-                   "inc_pending(%s) vs stored endpoint %s" % (render(ie)[:80], render(stored)[:80] if stored else None))
+                    stored = dict(x[4]).get(f_pend_ep)
+        if ins and incs:
+            # endpoint passed to inc is the endpoint stored
+            ie = b.site_expr(incs[0])
+            if len(ie[2]) > 1:
+                ctx.ob("endpoint-same", fn, stored is not None and render(stored) == render(ie[2][1]), ins[0].loc(),
+                       "inc_pending(%s) vs stored endpoint %s" % (render(ie[2][1])[:80], render(stored)[:80] if stored else None))
+            elif fn == "add_outgoing":
+                ctx.ob("endpoint-same", fn, stored is not None and lib.agg_variants(stored, r"connection::PendingPoint$") == ["Dialer"], ins[0].loc(),
+                       "outgoing increment vs stored endpoint %s" % (render(stored)[:80] if stored else None))
     # ---- spawn_connection: established insert paired with inc_established
-    b = ctx.body(SW, r"pool::Pool::spawn_connection$")
-    ins = [s for s in b.call_sites(r"HashMap::insert$") if "self.established" in render(b.site_expr(s))]
-    incs = b.call_sites(CC + "::inc_established$")
+    b = S.nbody(ctx, r"pool::Pool::spawn_connection$")
+    i_ep = S.param_of_type(b, r"libp2p_core::ConnectedPoint$")
+    i_peer = S.param_of_type(b, r"^libp2p_core::PeerId$")
+    ins = [s for s in b.call_sites(r"HashMap::insert$") if S.has_field(b.site_expr(s)[2][0], est)]
+    incs = b.call_sites(pat("inc_established"))
     ctx.floor("established-insert", "spawn_connection conns.insert", ins, 1, exact=True)
     rets = b.return_blocks()
     lib.exactly_once(ctx, "established-insert-paired", "spawn_connection/inc", b, [0], rets, lib.bbs(incs), "one inc_established", "%s:%d" % (b.file, b.line))
     lib.exactly_once(ctx, "established-insert-paired", "spawn_connection/insert", b, [0], rets, lib.bbs(ins), "one established insert", "%s:%d" % (b.file, b.line))
     if ins and incs:
         ie = render(b.site_expr(incs[0])[2][1])
-        ctx.ob("endpoint-same", "spawn_connection", ie == "endpoint" and re.search(r"endpoint: <libp2p_core::ConnectedPoint as std::clone::Clone>::clone\(endpoint\)", render(b.site_expr(ins[0]))) is not None,
+        stored = None
+        for x in mir.walk(b.site_expr(ins[0])):
+            if x[0] == "agg" and x[2].endswith("EstablishedConnection"):
+                stored = dict(x[4]).get(f_est_ep)
+        ctx.ob("endpoint-same", "spawn_connection", ie == "p%d" % i_ep and stored is not None and
+               render(stored) in ("<libp2p_core::ConnectedPoint as std::clone::Clone>::clone(p%d)" % i_ep, "p%d" % i_ep),
                ins[0].loc(), "inc_established(endpoint) and EstablishedConnection{endpoint: endpoint.clone()}")
-        e = render(b.site_expr(ins[0]))
-        ctx.ob("established-key", "spawn_connection", "entry(self.established, obtained_peer_id)" in e.replace("std::collections::hash_map::", "").replace("std::collections::HashMap::", ""),
-               ins[0].loc(), "insert goes into established.entry(obtained_peer_id).or_default()")
+        recv = b.site_expr(ins[0])[2][0]
+        ent = mir.calls_in(recv, r"HashMap::entry$")
+        ok = len(ent) == 1 and render(ent[0][2][0]) == "self." + est and render(ent[0][2][1]) == "p%d" % i_peer and \
+            S.is_call(recv, r"hash_map::Entry::(or_default|or_insert_with|or_insert)$")
+        ctx.ob("established-key", "spawn_connection", ok, ins[0].loc(), "insert goes into established.entry(obtained_peer_id).or_default()")
+        # the entry created for the peer always receives the new connection (no empty per-peer map is left behind)
+        for c in ent:
+            got = lib.count_range(b, b.succ[c[3]], rets, lib.bbs(ins))
+            ctx.ob("established-key", "spawn_connection: entry() is always followed by the insert", got == (1, 1), ins[0].loc(),
+                   "inserts on the paths after established.entry(peer): %s" % (got,))
 
     # ---- Pool::poll: removes paired with decs
-    p = ctx.body(SW, r"pool::Pool::poll$")
+    p = S.nbody(ctx, r"pool::Pool::poll$")
     rets = p.return_blocks()
-    prem = [s for s in p.call_sites(r"HashMap::remove$") if re.match(r"^std::collections::HashMap::remove\(self\.pending,", render(p.site_expr(s)))]
+    prem = [s for s in p.call_sites(r"HashMap::remove$") if render(p.site_expr(s)[2][0]) == "self." + pend]
     ctx.floor("pending-remove", "Pool::poll pending.remove", prem, 2)
-    decs = p.call_sites(CC + "::dec_pending$")
+    decs = p.call_sites(pat("dec_pending"))
     ctx.floor("pending-remove", "Pool::poll dec_pending", decs, 2)
     for i, s in enumerate(prem):
-        none_edges = lib.switch_edges_on_site(p, s, {"None"}, r"^discr\(std::collections::HashMap::remove\(self\.pending")
+        none_edges = lib.switch_edges_on_site(p, s, {"None"}, r"^discr\(std::collections::HashMap::remove\(")
         arm = "ConnectionEstablished" if "ConnectionEstablished.id" in render(p.site_expr(s)) else "PendingFailed"
         lib.exactly_once(ctx, "pending-remove-paired", arm, p, p.succ[s.bb], rets, lib.bbs(decs),
                          "dec_pending after pending.remove returned an entry", s.loc(), excuse_edges=none_edges,
                          reset_bbs=lib.bbs(prem))
         # the endpoint passed to dec is the removed entry's endpoint
         mine = [d for d in decs if any(c[3] == s.bb for c in mir.calls_in(p.site_expr(d)[2][1], r"HashMap::remove$"))]
-        ctx.ob("endpoint-same", "poll/" + arm, len(mine) == 1 and render(p.site_expr(mine[0])[2][1]).endswith(".endpoint"),
+        ctx.ob("endpoint-same", "poll/" + arm, len(mine) == 1 and render(p.site_expr(mine[0])[2][1]).endswith("." + f_pend_ep),
                s.loc(), "dec_pending argument is the removed PendingConnection.endpoint")
-    erem = [s for s in p.call_sites(r"HashMap::remove$") if re.search(r"^std::collections::HashMap::remove\(std::option::Option::expect\(std::collections::HashMap::get_mut\(self\.established", render(p.site_expr(s)))]
+
+    def inner_of_established(e):
+        return any(x[2] and render(x[2][0]) == "self." + est for x in mir.calls_in(e, r"HashMap::get_mut$"))
+    erem = [s for s in p.call_sites(r"HashMap::remove$") if p.site_expr(s)[2][0][0] == "call" and inner_of_established(p.site_expr(s)[2][0])]
     ctx.floor("established-remove", "Pool::poll connections.remove", erem, 1, exact=True)
-    edecs = p.call_sites(CC + "::dec_established$")
+    edecs = p.call_sites(pat("dec_established"))
     for s in erem:
         lib.exactly_once(ctx, "established-remove-paired", "Closed", p, p.succ[s.bb], rets, lib.bbs(edecs),
                          "dec_established after established connection removed", s.loc())
         mine = [d for d in edecs if any(c[3] == s.bb for c in mir.calls_in(p.site_expr(d)[2][1], r"HashMap::remove$"))]
-        ctx.ob("endpoint-same", "poll/Closed", len(mine) == 1 and render(p.site_expr(mine[0])[2][1]).endswith(".endpoint"),
+        ctx.ob("endpoint-same", "poll/Closed", len(mine) == 1 and render(p.site_expr(mine[0])[2][1]).endswith("." + f_est_ep),
                s.loc(), "dec_established argument is the removed EstablishedConnection.endpoint")
     # outer entry removed iff inner map empty: the outer remove is guarded by is_empty(remaining) true, and every
     # path from inner remove to return passes the is_empty test
-    orem = [s for s in p.call_sites(r"HashMap::remove$") if re.match(r"^std::collections::HashMap::remove\(self\.established,", render(p.site_expr(s)))]
+    orem = [s for s in p.call_sites(r"HashMap::remove$") if render(p.site_expr(s)[2][0]) == "self." + est]
     ctx.floor("outer-remove", "Pool::poll established.remove(peer)", orem, 1, exact=True)
+
+    def empty_test(c, r):
+        # emptiness of the per-peer map after the removal: `remaining_ids.is_empty()` or `connections.is_empty()`
+        if c[0] != "call" or not c[2] or not inner_of_established(c):
+            return False
+        return (r.startswith("std::vec::Vec::is_empty(") and "HashMap::keys" in r) or r.startswith("std::collections::HashMap::is_empty(")
     for s in orem:
         ctx.guarded("outer-remove", "guarded-by-is_empty", s,
-                    lambda c, r, l: l == "true" and r.startswith("std::vec::Vec::is_empty(") and "HashMap::keys" in r,
+                    lambda c, r, l: l == "true" and empty_test(c, r),
                     "established.remove(peer) only when no connection remains")
     if erem:
-        tests = [bi for bi in p.live if (p.switch_info(bi) or (None,))[0] is not None and
-                 render(p.switch_info(bi)[0]).startswith("std::vec::Vec::is_empty(") and "HashMap::keys" in render(p.switch_info(bi)[0])]
+        tests = [bi for bi, c, _ in S.switch_blocks(p, empty_test)]
         ctx.passes("outer-remove", "is_empty-tested-after-inner-remove", p, p.succ[erem[0].bb], rets, tests,
                    "emptiness test of the inner map after removing a connection", erem[0].loc())
         # the false edge must not skip dropping when empty: on true edge the remove is mandatory
@@ -157,16 +242,16 @@ def check(ctx):
             ctx.passes("outer-remove", "empty=>outer-removed", p, true_t, rets, lib.bbs(orem),
                        "established.remove(peer) on the empty edge", "%s:%d" % (p.file, p.blocks[t]["term"].get("l", 0)))
         # remaining ids collected after the removal
-        keys = p.call_sites(r"HashMap::keys$")
+        keys = [s for s in p.call_sites(r"HashMap::keys$") if inner_of_established(p.site_expr(s))]
         lib.precedes(ctx, "remaining-after-remove", "Closed", p, lib.bbs(erem), lib.bbs(keys),
                      "remaining_established_connection_ids collected after connections.remove(id)", erem[0].loc())
     # is_connected / num_peers defined on the outer map
-    for fn, pat in (("is_connected", r"HashMap::contains_key\(self\.established"), ("num_peers", r"HashMap::len\(self\.established")):
-        b = ctx.body(SW, r"pool::Pool::%s$" % fn)
-        txt = " ".join(render(b.site_expr(s)) for s in b.call_sites())
-        ctx.ob("view-def", fn, re.search(pat, txt) is not None, "%s:%d" % (b.file, b.line), "%s reads the outer established map" % fn)
+    for fn, pt in (("is_connected", r"^std::collections::HashMap::contains_key\(self\.%s, p2\)$" % re.escape(est)), ("num_peers", r"^std::collections::HashMap::len\(self\.%s\)$" % re.escape(est))):
+        b = S.nbody(ctx, r"pool::Pool::%s$" % fn)
+        rs = [render(e) for e in S.ret_exprs(b)]
+        ctx.ob("view-def", fn, len(rs) == 1 and re.search(pt, rs[0]) is not None, "%s:%d" % (b.file, b.line), "%s reads the outer established map: %s" % (fn, rs))
     # ---- handle_pool_event: pre-insert view
-    h = ctx.body(SW, r"^libp2p_swarm::Swarm::handle_pool_event$")
+    h = S.nbody(ctx, r"^libp2p_swarm::Swarm::handle_pool_event$")
     it = h.call_sites(r"pool::Pool::iter_established_connections_of_peer$")
     sp = h.call_sites(r"pool::Pool::spawn_connection$")
     ctx.floor("pre-insert-view", "spawn_connection in handle_pool_event", sp, 1, exact=True)
